@@ -831,8 +831,13 @@ class IkeSa(object):
                                proposal=chosen_child_proposal, tsi=chosen_tsr, tsr=chosen_tsi, mode=requested_mode,
                                lifetime=ipsec_conf.lifetime, original_proposal=ipsec_conf.proposal)
 
+            # install first, track afterwards; a half-installed pair is removed again
+            try:
+                xfrm.Xfrm.create_child_sa(self, child_sa, child_sa_keyring, is_initiator=False)
+            except xfrm.NetlinkError:
+                xfrm.Xfrm.delete_child_sa(self, child_sa)
+                raise
             self.child_sas.append(child_sa)
-            xfrm.Xfrm.create_child_sa(self, child_sa, child_sa_keyring, is_initiator=False)
             self.log_info('Created CHILD_SA {} with lifetime = {}'.format(child_sa, child_sa.lifetime))
 
             # generate the response Payload SA
@@ -983,8 +988,13 @@ class IkeSa(object):
         self.creating_child_sa = self.creating_child_sa._replace(outbound_spi=chosen_child_proposal.spi,
                                                                  proposal=chosen_child_proposal, tsi=chosen_tsi,
                                                                  tsr=chosen_tsr)
+        # install first, track afterwards; a half-installed pair is removed again
+        try:
+            xfrm.Xfrm.create_child_sa(self, self.creating_child_sa, child_sa_keyring, is_initiator=True)
+        except xfrm.NetlinkError:
+            xfrm.Xfrm.delete_child_sa(self, self.creating_child_sa)
+            raise
         self.child_sas.append(self.creating_child_sa)
-        xfrm.Xfrm.create_child_sa(self, self.creating_child_sa, child_sa_keyring, is_initiator=True)
         self.log_info(f'Created CHILD_SA {self.creating_child_sa}')
 
     def process_ike_auth_response(self, response):
